@@ -42,7 +42,7 @@ PROPS = {
    corr=[("expr", "compile", 4000, 200000), ("prog", "compile", 2000, 100000), ("prog-params", "compile", 2000, 100000), ("lets", "compile", 1500, 75000),
          ("signs", "compile", 0, 0), ("joinconds", "compile", 0, 0), ("joins", "compile", 1000, 50000)],
    oracle=[("expr", "reread", 4000, 200000), ("prog", "reread", 2000, 100000), ("prog-params", "reread", 2000, 100000), ("lets", "reread", 1500, 75000),
-           ("signs", "reread", 0, 0), ("joinconds", "reread", 0, 0), ("expr", "oracle-C12", 1500, 75000)],
+           ("signs", "reread", 0, 0), ("joinconds", "reread", 0, 0), ("expr", "oracle-C12", 1500, 75000), ("lets", "oracle-C14", 500, 25000)],
    oracle_for_stage={"compile": ["reread"]},
    corpus=["compile.txt", "reserved.txt"], tables=["Gen/Tables.v: op_prec, binop_sql, known_funcs, writer_arity, writer_template, builtin_idents"]),
  "C02": dict(
